@@ -49,6 +49,13 @@ def run_property(prop, tier, repo, quiet=False):
     for a in getattr(mod, "ASSUMPTIONS", []):
         L.assume(a)
     mod.run(L, tier)
+    if os.environ.get("VERIF_SHARE_LENDERS") == "1" and not L.deficits:
+        # development (tools/try_seed.py --multi): the property's own obligations double as its lender ledger
+        import copy
+        sub = Ledger(prop, tier, repo, quiet=True)
+        sub.obs = [copy.copy(o) for o in L.obs]
+        sub.units = dict(L.units)
+        _LENT.setdefault((prop, tier, L.repo), sub)
     borrow_prerequisites(L, prop, tier)
     if tier == "thorough" and os.environ.get("VERIF_NO_SELFTEST") != "1":
         # informational: the checker's own mutation self-test on scratch copies of the tree under analysis
@@ -72,6 +79,24 @@ def main(argv):
     if args and args[0] == "--selftest":
         import selftest
         return selftest.main(args[1:])
+    if args and args[0] == "--multi":
+        # development helper: several properties in one process (lender ledgers shared), one section per property
+        os.environ["VERIF_SHARE_LENDERS"] = "1"
+        tier = args[2] if len(args) > 2 else "quick"
+        for prop in args[1].split(","):
+            print("@@BEGIN %s" % prop)
+            try:
+                rc = run_property(prop, tier, repo)
+            except AnalysisError as e:
+                print("ANALYSIS-ERROR: property=%s %s" % (prop, e))
+                rc = 2
+            except Exception:
+                traceback.print_exc(file=sys.stdout)
+                print("ANALYSIS-ERROR: property=%s internal error (see traceback)" % prop)
+                rc = 2
+            print("@@END %s %d" % (prop, rc))
+            sys.stdout.flush()
+        return 0
     if args and args[0] == "--replay":
         import json
         with open(args[1]) as f:
